@@ -323,3 +323,7 @@ impl ServeLoop<'_> {
         Ok(ControlFlow::Break(()))
     }
 }
+
+#[cfg(feature = "verif")]
+#[path = "../verif/unix_hooks.rs"]
+pub(crate) mod verif_hooks;
